@@ -1489,6 +1489,29 @@ class Mask(Elemwise):
     _defaults = {"other": np.nan}
     operation = M.mask
 
+    def _simplify_up(self, parent, dependents):
+        if isinstance(parent, Projection):
+            columns = determine_column_projection(self, parent, dependents)
+            frames = [
+                op
+                for op in (self.cond, self.other)
+                if isinstance(op, Expr) and op.ndim == 2
+            ]
+            if (
+                frames
+                and not isinstance(columns, list)
+                and columns in self.frame.columns
+                and all(columns in op.columns for op in frames)
+            ):
+                # A Series cannot be masked by a frame: select the column
+                # of the condition and of the replacement as well
+                operands = [
+                    op[columns] if isinstance(op, Expr) and op.ndim == 2 else op
+                    for op in self.operands
+                ]
+                return type(self)(*operands)
+        return Elemwise._simplify_up(self, parent, dependents)
+
 
 class Round(Elemwise):
     _projection_passthrough = True
@@ -1514,6 +1537,7 @@ class Where(Elemwise):
     _parameters = ["frame", "cond", "other"]
     _defaults = {"other": np.nan}
     operation = M.where
+    _simplify_up = Mask._simplify_up
 
 
 def _check_divisions(df, i, division_min, division_max, last):
